@@ -17,7 +17,10 @@ import (
 )
 
 func init() {
-	runners["C12"] = runSrv6
+	runners["C12"] = func(c *Ctx) {
+		runSrv6(c)
+		runServeLoop6(c, c.Scale(12, 300)) // the same statement through the receive loop on a real socket
+	}
 }
 
 // ---- Gallina printers ----
@@ -498,7 +501,8 @@ func runSrv6(c *Ctx) {
 	r := c.R
 	intp := func(i int) *int { return &i }
 	peers := []*net.UDPAddr{{IP: net.ParseIP("2001:db8::99"), Port: 546}, {IP: net.ParseIP("fe80::1234"), Port: 546, Zone: ""},
-		{IP: net.ParseIP("2001:db8::77"), Port: 5546}, {IP: net.ParseIP("fe80::9"), Port: 40000}}
+		{IP: net.ParseIP("2001:db8::77"), Port: 5546}, {IP: net.ParseIP("fe80::9"), Port: 40000},
+		{IP: net.ParseIP("fd12:3456:789a::547"), Port: 547}, {IP: net.ParseIP("fec0::1"), Port: 546}, {IP: net.ParseIP("ff02::1:2"), Port: 546}}
 	pass := sbeh6{"B6Pass", "p", 0}
 	mark := func(i int) sbeh6 { return sbeh6{fmt.Sprintf("B6Mark %d", i), "m", i} }
 	repl := func(i int) sbeh6 { return sbeh6{fmt.Sprintf("B6Replace %d", i), "r", i} }
